@@ -45,7 +45,8 @@ Definition charpath_x (n : nat) (D : mat dval) (include_diagonal include_infinit
 
 (* ---------- efficiency_bin: distance_inv (efficiency.py 35-49) ---------- *)
 Open Scope Z_scope.
-(* while np.any(L): D += n*L; n += 1; nPATH = np.dot(nPATH, g); L = (nPATH != 0) * (D == 0) *)
+(* while np.any(L): D += n*L; n += 1; nPATH = (np.dot(nPATH, g) != 0).astype(float); L = (nPATH != 0) * (D == 0)
+   (clipped to the support since repo commit 3281ffb) *)
 Fixpoint dinv_loop (fuel n : nat) (g : mat Z) (D : mat nat) (d : nat) (nPATH : mat Z) (Lm : mat bool)
   : option (mat nat) :=
   match fuel with
@@ -53,7 +54,8 @@ Fixpoint dinv_loop (fuel n : nat) (g : mat Z) (D : mat nat) (d : nat) (nPATH : m
   | S f =>
     if anyb n Lm then
       let D' := tab 0%nat n n (fun i j => (D i j + (if Lm i j then d else 0))%nat) in
-      let nP := tab 0 n n (matmul n nPATH g) in
+      let P := tab 0 n n (matmul n nPATH g) in
+      let nP := tab 0 n n (fun i j => b2z (znz (P i j))) in
       let L' := tab false n n (fun i j => znz (nP i j) && Nat.eqb (D' i j) 0) in
       dinv_loop f n g D' (S d) nP L'
     else Some D
